@@ -10,3 +10,27 @@ Theorem C05_range_loads : forall b, well_sized b = true -> pos_sized b = true ->
     forall c, In c loads -> exists s e, In (c, s, e) (spans b 0) /\ s < a + k /\ a < e.
 Proof. exact range_loads. Qed.
 Print Assumptions C05_range_loads.
+
+(* ---- sharded directories ---- *)
+From UV Require Import Hamt.Build Hamt.Read Hamt.ShardDecode Hamt.Refine Hamt.RefineTrace Hamt.RefineLength Base.Varint.
+From Coq Require Import Permutation.
+Local Open Scope N_scope.
+
+(* looking a name up in a sharded directory built by this library requests a fixed list of blocks that depends
+   on the key only — the child shards on the key's hash path, at most one per level of the hash — whatever the
+   availability of blocks: (result, requests) of LookupByString for every key and every fault function *)
+Theorem C05_sharded_lookup_requests_only_the_hash_path : forall size lg, permitted size lg ->
+  forall H : bytes -> bytes, (forall k, wf_bytes (H k) = true) -> (forall k, length (H k) = 8%nat) ->
+  forall entries root sz,
+  Forall (entry_ok H) entries -> NoDup (map e_name entries) ->
+  build_sharded size HashMurmur3 entries = Ok (root, sz) ->
+  forall key, exists path : list blk,
+    (N.of_nat (length path) + 1) * lg <= 64 /\
+    forall fault,
+      Read.lookup fault root (H key) key =
+      match first_fault fault path with
+      | Some (e, tr) => (Err e, tr)
+      | None => (match find (fun e => bytes_eqb (e_name e) key) entries with Some e => Ok (e_target e) | None => Err ENotFound end, path)
+      end.
+Proof. exact sharded_lookup_requests. Qed.
+Print Assumptions C05_sharded_lookup_requests_only_the_hash_path.
